@@ -230,6 +230,16 @@ example : let s := run repaired (St.init false none) (launchedTrace (.exit 3))
 example : (∀ i, i < (St.init false none).n → ((St.init false none).procs i).dead ≠ none)
     ∧ (∀ l, ((St.init false none).ls l).holds = false) := by simp [St.init, LState.holds]
 
+/-- … and a non-trivial one: launched by the scheduler protocol, SIGKILL inside the body -/
+def killedTrace : List Act :=
+  [.lLock 0, .lSpawn 0 .ok 1, .lWrite 0, .lRelease 0] ++ List.replicate 10 (.step 0) ++ [.signal 0 .kill]
+
+example : let s := run current (St.init false none) killedTrace
+    (∀ i, i < s.n → (s.procs i).dead ≠ none) ∧ (∀ l, (s.ls l).holds = false) ∧ s.sh.done = false ∧ s.sh.pid = some 0 := by
+  refine ⟨by decide, ?_, by decide, by decide⟩
+  intro l
+  cases l <;> rfl
+
 /-- a success marker that was written (hypothesis of `done_implies_completed`) -/
 example : let s := run current (St.init false none) ([.spawn .ok 0] ++ List.replicate 20 (.step 0))
     s.sh.done = true ∧ (s.procs 0).touched = true ∧ (s.procs 0).completed = true := by decide
